@@ -44,6 +44,8 @@ def path_of(e, aliases=None):
         return p + ("[%s]" % i,) if p else None
     if k in ("cast", "defarg"):
         return path_of(e.get("e"), aliases)
+    if k == "call" and e.get("ck") == "member" and "pair<" in (e.get("t") or "") and not e.get("args"):
+        return ("<%s>" % e.get("name"),)
     if k == "construct" and len(e.get("args", [])) == 1:
         return path_of(e["args"][0], aliases)
     if k == "un" and e.get("op") == "*":
@@ -55,6 +57,17 @@ def collect_aliases(fn):
     """local id -> member path, for `auto& inv = loc.invariant;` style declarations (and structured bindings
     are left alone)."""
     al = {}
+
+    def pair_source(e):
+        """`X.get_range()` -> ('<X.get_range>',): the name under which the two components are known"""
+        while isinstance(e, dict) and e.get("k") in ("cast", "materialize"):
+            e = e["e"]
+        if isinstance(e, dict) and e.get("k") == "construct" and len(e.get("args", [])) == 1:
+            return pair_source(e["args"][0])
+        if isinstance(e, dict) and e.get("k") == "call" and e.get("ck") == "member" and \
+                "pair<" in (e.get("t") or "") and not e.get("args"):
+            return ("<%s>" % e.get("name"),)
+        return None
     for n in walk(fn["body"]):
         if n.get("k") == "decl":
             for v in n["vars"]:
@@ -62,6 +75,24 @@ def collect_aliases(fn):
                     p = path_of(v["init"], al)
                     if p:
                         al[v["id"]] = p
+                # auto [lower, upper] = type.get_range();   auto r = type.get_range();
+                src = pair_source(v.get("init")) if v.get("init") is not None else None
+                if src:
+                    bs = v.get("bindings") or []
+                    if len(bs) == 2:
+                        al[bs[0]["id"]] = src + ("first",)
+                        al[bs[1]["id"]] = src + ("second",)
+                    elif not bs:
+                        al[v["id"]] = src
+        # std::tie(l, u) = type.get_range();
+        if n.get("k") == "call" and n.get("ck") == "op" and n.get("op") == "=" and \
+                (n.get("recv") or {}).get("name") == "tie" and len((n.get("recv") or {}).get("args", [])) == 2 and n.get("args"):
+            src = pair_source(n["args"][0])
+            if src:
+                a, b = n["recv"]["args"]
+                if a.get("k") == "ref" and b.get("k") == "ref":
+                    al[a["id"]] = src + ("first",)
+                    al[b["id"]] = src + ("second",)
     return al
 
 
@@ -227,6 +258,15 @@ def _exit_allowed(ifnode, aliases):
         return True
     if c.get("k") == "call" and c.get("name") == "empty" and not neg:
         return True          # nothing to check
+    # `if (it == map.end()) continue;` - the lookup found no object, there is nothing to check
+    eq = None
+    if c.get("k") == "bin" and c.get("op") == "==":
+        eq = (c["lhs"], c["rhs"])
+    elif c.get("k") == "call" and c.get("ck") == "op" and c.get("op") == "==":
+        a = ([c["recv"]] if c.get("recv") is not None else []) + list(c.get("args", []))
+        eq = tuple(a[:2]) if len(a) >= 2 else None
+    if eq and not neg and any(x.get("k") == "call" and x.get("name") in ("end", "cend") for y in eq for x in walk(y)):
+        return True
     return False
 
 
